@@ -30,7 +30,12 @@ RULE = ('unimolecular rules from 30 hand-written edit templates (incl. non-commu
         'accept/reject decision was compared with the balance; distinct by '
         '(rule text, molecule).'
         ' Also: formal-charge edits (acceptance not judged, application '
-        'judged; INCONCLUSIVE if none was applied) on an ion pool. ')
+        'judged; INCONCLUSIVE if none was applied) on an ion pool. '
+        ' '
+        'Rounds 17-19: two (thorough: five) of twenty molecules of 11-17'
+        ' heavy atoms with non-consecutive bonds, atoms renumbered at'
+        ' random, per rule; copies / pickles of rule objects; rule reading'
+        ' and application with one rule object per thread from four threads.')
 ASSUMPTIONS = [
     'unimolecular rules; reactant groups / duplicates and constraints{} are '
     'outside the statement; WHETHER a rule with formal-charge edits is '
